@@ -288,6 +288,52 @@ func (g *pureGen) caseMatch() (string, string) {
 	return in, out
 }
 
+// pureEval: `harness pureeval <file>` — the Go results for the given input lines (replay of a
+// pure-function divergence)
+func pureEval(path string) error {
+	data, err := os.ReadFile(path)
+	if err != nil {
+		return err
+	}
+	for _, line := range strings.Split(string(data), "\n") {
+		line = strings.TrimSpace(strings.TrimPrefix(strings.TrimSpace(line), "#"))
+		t := strings.Fields(line)
+		if len(t) < 4 {
+			continue
+		}
+		switch t[0] {
+		case "tosell", "topay":
+			p, amt := bs(t[1]), bs(t[2])
+			denom := "other"
+			if t[3] == "1" {
+				denom = "bidcoin"
+			}
+			out := safe(func() string {
+				b := types.Bid{Price: decOf(p), Coin: sdk.NewCoin("bidcoin", math.NewIntFromBigInt(amt))}
+				if t[0] == "tosell" {
+					return b.ConvertToSellingAmount(denom).BigInt().String()
+				}
+				return b.ConvertToPayingAmount(denom).BigInt().String()
+			})
+			fmt.Printf("%s => %s\n", line, out)
+		case "sched":
+			end := bs(t[1]).Int64()
+			var vs []types.VestingSchedule
+			for i := 3; i+1 < len(t); i += 2 {
+				vs = append(vs, types.VestingSchedule{ReleaseTime: time.Unix(bs(t[i]).Int64(), 0).UTC(), Weight: decOf(bs(t[i+1]))})
+			}
+			out := safe(func() string {
+				if err := types.ValidateVestingSchedules(vs, time.Unix(end, 0).UTC()); err != nil {
+					return "1"
+				}
+				return "0"
+			})
+			fmt.Printf("%s => %s\n", line, out)
+		}
+	}
+	return nil
+}
+
 func pureMain(args []string) error {
 	fs := flag.NewFlagSet("pure", flag.ContinueOnError)
 	seed := fs.Int64("seed", 1, "PRNG seed")
